@@ -29,6 +29,14 @@ func checkC02(r *Run) {
 	r6 := r.Rule("R-C02-6", "never zero times: every failure of the QoS 2 exchange after its waiter was registered carries a retry handle, and the error wrappers keep it for every cause but nil and io.EOF")
 	c.ruleRetryableFailures(r6, st2)
 	c.ruleWrapKeepsHandle(r6)
+	r8 := r.Rule("R-C02-8", "never zero times: the handles of the QoS 2 exchange resume on the connection they are given — they re-issue the stage with Retry's context and client and capture no client, signaller or channel of the attempt that failed (R-C01-6 for the QoS 2 sites)")
+	{
+		var uses2 []handleUse
+		for _, u := range c.ruleRetryableFailures(nil, st2) {
+			uses2 = append(uses2, u)
+		}
+		c.ruleHandleReissues(r8, uses2)
+	}
 	r7 := r.Rule("R-C02-7", "never zero times: a failed (e.g. timed-out) publish leaves the retrying client's request closure only with its retry handle queued — unless the caller's own context was cancelled (R-C01-4, publish only)")
 	c.ruleFailedKeptFor(r7, "publish")
 }
